@@ -1483,3 +1483,310 @@ def suite_bind(run, rng, T):
             n_cases += 1
     T["bind_cases"] = n_cases
     return batch, batch.flush()
+
+
+# =====================================================================================
+# suite 5: QASM programs written by hand / generated: several registers, parameter expressions,
+#          custom gate definitions.  import -> export -> import must be stable (or export raises)
+# =====================================================================================
+def program_texts(rng, tier):
+    H2 = 'OPENQASM 2.0;\ninclude "qelib1.inc";\n'
+    out = []
+    out.append(("multi_qreg", H2 + "qreg a[2];\nqreg b[3];\ncreg c[2];\ncreg d[1];\ncx a[1],b[2];\nu3(0.1,0.2,0.3) b[0];\n"
+                "measure b[1] -> c[1];\nmeasure a[0] -> c[0];\nmeasure b[2] -> d[0];"))
+    out.append(("expr_simple", H2 + "qreg q[2];\nrx(pi/2) q[0];\nry(-pi/4) q[1];\nrz(2*pi/3) q[0];\nu1(3*pi) q[1];\nrx(-0.5) q[0];\n"
+                "rx(1e-3) q[0];\nrx(.5) q[1];\nrx(3) q[0];\nu2(pi, -pi) q[1];\nrx(2**3) q[0];"))
+    out.append(("expr_paren", H2 + "qreg q[1];\nrx(2*(pi+1)) q[0];\nrx(-(1+2)) q[0];\nrx(2/(3*4)) q[0];\nrx(1-(2-3)) q[0];"))
+    out.append(("expr_fn", H2 + "qreg q[1];\nrx(sin(1)) q[0];"))
+    out.append(("custom_plain", H2 + "qreg q[3];\ngate foo a,b { h a; cx a,b; }\nfoo q[2],q[0];\nfoo q[0],q[1];"))
+    out.append(("custom_param", H2 + "qreg q[3];\ngate foo(t) a,b { rx(t) a; cx a,b; }\nfoo(0.5) q[2],q[0];\nfoo(pi/2) q[0],q[1];"))
+    out.append(("custom_param_expr", H2 + "qreg q[3];\ngate foo(t) a,b { rx(t/2) a; cx a,b; }\nfoo(0.5) q[2],q[0];"))
+    out.append(("custom_nested", H2 + "qreg q[3];\ngate foo(t,s) a,b { u2(s,t) a; cx b,a; }\ngate bar(x) a,b,c { foo(x,0.25) c,a; h b; }\n"
+                "bar(0.5) q[2],q[0],q[1];\nh q[0];"))
+    out.append(("custom_shadow", H2 + "qreg q[2];\ngate rx(t) a { h a; }\nrx(0.1) q[0];"))
+    out.append(("custom_iswap", H2 + "qreg q[2];\ngate iswap a,b { h a; }\niswap q[0],q[1];"))
+    out.append(("qasm3", "OPENQASM 3.0;\nqubit[3] q;\nbit[2] c;\nh q[0];\nU(0.1,0.2,0.3) q[1];\nc[0] = measure q[1];\nc[1] = measure q[0];"))
+    out.append(("measure_middle", H2 + "qreg q[3];\ncreg c[2];\nmeasure q[1] -> c[0];\nh q[0];\nmeasure q[2] -> c[1];"))
+    out.append(("partial_register", H2 + "qreg q[3];\ncreg c[3];\nmeasure q[1] -> c[0];\nmeasure q[2] -> c[2];"))
+    out.append(("aliases", H2 + "qreg q[3];\nu(0.1,0.2,0.3) q[0];\nid q[0];\nccx q[0],q[1],q[2];\ncu1(0.1) q[0],q[1];\ncu3(0.1,0.2,0.3) q[0],q[1];\n"
+                "u1(0.3) q[0];\nsx q[0];\nsxdg q[0];\nms(0.1,0.2,0.3) q[0],q[1];"))
+    # every labelled class through its own label with expression arguments, on two quantum registers
+    exprs = ["pi/2", "-pi/4", "0.1234567890123456", "3*pi/8", "1e-3"]
+    for name in labelled_classes():
+        g, _ = build(name, placement(arity(name)), [0.5])
+        k, npar = len(g.qubits), (len(g.parameters) if g.parameters and not isinstance(g.parameters[0], np.ndarray) else 0)
+        if name == "MS":
+            args = ["pi/2", "-pi/4", "pi/8"]
+        else:
+            args = exprs[:npar]
+        regs = ["b[1]", "a[0]", "b[0]", "a[1]"][:k]
+        out.append((f"label_{name}", H2 + "qreg a[2];\nqreg b[2];\n" + g.qasm_label + (f"({','.join(args)})" if args else "") + " " + ",".join(regs) + ";"))
+    return out
+
+
+EXPR_NAMES = {"pi": math.pi}
+
+
+def suite_programs(run, rng, T):
+    from qibo import Circuit
+    stats, observations = {}, []
+    for label, text in program_texts(rng, run.tier):
+        try:
+            with warnings.catch_warnings():
+                warnings.simplefilter("ignore")
+                c = Circuit.from_qasm(text)
+        except Exception as e:
+            stats["import_raises"] = stats.get("import_raises", 0) + 1
+            observations.append({"program": label, "import": f"{type(e).__name__}: {str(e)[:100]}"})
+            continue
+        run.case(["program", label, text])
+        # what the importer understood, against python's own reading of each parameter expression
+        for g in c.queue:
+            for sub in (g.gates if type(g).__name__ == "FusedGate" else [g]):
+                for p in sub.parameters:
+                    if not isinstance(p, (int, float, np.floating, np.integer)):
+                        observations.append({"program": label, "gate": type(sub).__name__, "parameter_read_as": repr(p)[:60]})
+        if label == "expr_paren":
+            want = [2 * (math.pi + 1), -(1 + 2), 2 / (3 * 4), 1 - (2 - 3)]
+            got = [float(g.parameters[0]) for g in c.queue]
+            if want != got:
+                observations.append({"program": label, "expected_by_python_arithmetic": want, "read_by_from_qasm": got})
+        if label.startswith("label_"):
+            name = label[6:]
+            if type(c.queue[0]).__name__ != name:
+                run.find(f"qasm:label_resolves_to:{name}", f"the label of {name} is imported as {type(c.queue[0]).__name__}",
+                         {"suite": "program", "label": label, "text": text})
+        try:
+            t2 = c.to_qasm()
+        except Exception as e:
+            stats["export_raises"] = stats.get("export_raises", 0) + 1
+            continue
+        try:
+            with warnings.catch_warnings():
+                warnings.simplefilter("ignore")
+                c2 = Circuit.from_qasm(t2)
+        except Exception as e:
+            stats["import_rejects"] = stats.get("import_rejects", 0) + 1
+            run.find(f"qasm:program:import_rejects:{label}", f"re-export of an imported program is rejected: {type(e).__name__}: {str(e)[:100]}",
+                     {"suite": "program", "label": label, "text": text, "exported": t2})
+            continue
+        why = qasm_equiv(c, c2)
+        if why:
+            stats["differs"] = stats.get("differs", 0) + 1
+            run.find(f"qasm:program:differs:{label}", "re-export of an imported program reads differently: " + "; ".join(why),
+                     {"suite": "program", "label": label, "text": text, "exported": t2})
+        else:
+            stats["ok"] = stats.get("ok", 0) + 1
+            if label in ("multi_qreg", "expr_simple"):
+                run.sample({"suite": "program", "label": label, "text": text.split("\n")[2:], "re_exported": t2.split("\n")[3:]})
+    T["program_stats"] = stats
+    T["importer_observations_outside_property_text"] = observations
+
+
+# =====================================================================================
+# suite 6: results  (to_dict/from_dict, dump/load, load_result)
+# =====================================================================================
+def result_specs(tier, rng):
+    out = []
+    M = lambda q, **kw: {"cls": "M", "q": list(q), "kw": kw}
+    H = lambda q: {"cls": "H", "q": [q]}
+    base = [H(0), {"cls": "CNOT", "q": [0, 2]}, {"cls": "RX", "q": [1], "p": [pspec(0.7)]}, {"cls": "U3", "q": [3], "p": [pspec(0.3), pspec(1.1), pspec(-0.4)]}]
+    layouts = [[M([2, 0], register_name="a"), M([1], register_name="b")],
+               [M([3, 1, 0], register_name="Big")],
+               [M([1]), M([3, 0]), M([2])],
+               [M([0, 1, 2, 3])],
+               [M([3], register_name="z"), M([0], register_name="a")]]
+    for dm in (False, True):
+        out.append({"kind": "state", "circuit": {"n": 4, "dm": dm, "adds": base}})
+    out.append({"kind": "state", "circuit": {"n": 1, "adds": []}})
+    for li, lay in enumerate(layouts):
+        for after in ("none", "samples", "frequencies", "both"):
+            out.append({"kind": "circuit_result", "after": after, "nshots": 17 + li,
+                        "circuit": {"n": 4, "dm": li % 2 == 1, "adds": base + lay}})
+    for noise in ({"p0": 0.125}, {"p0": [0.125, 0.25], "p1": 0.375}, {"p0": {"2": 0.125, "0": 0.25}}):
+        for after in ("none", "samples"):
+            out.append({"kind": "circuit_result", "after": after, "nshots": 12,
+                        "circuit": {"n": 4, "adds": base + [M([2, 0], register_name="a", **noise)]}})
+    # results of repeated execution (collapse / noise channels on a state vector): outcomes only
+    out.append({"kind": "outcomes_exec", "nshots": 9, "circuit": {"n": 3, "adds": [H(0), M([0], collapse=True), H(0), M([2, 0], register_name="a"), M([1], register_name="b")]}})
+    out.append({"kind": "outcomes_exec", "nshots": 9, "circuit": {"n": 3, "adds": [H(0), {"cls": "PauliNoiseChannel", "q": [0]}, M([2, 0], register_name="a"), M([1], register_name="b")]}})
+    # MeasurementOutcomes built directly
+    for li, lay in enumerate(layouts[:3]):
+        out.append({"kind": "outcomes_samples", "nshots": 6, "gates": lay, "seed": li})
+        out.append({"kind": "outcomes_probs", "nshots": 11, "gates": lay, "after": "none"})
+        out.append({"kind": "outcomes_probs", "nshots": 11, "gates": lay, "after": "frequencies"})
+        out.append({"kind": "outcomes_probs", "nshots": 11, "gates": lay, "after": "samples"})
+    return out
+
+
+def make_result(spec):
+    import qibo
+    from qibo.result import MeasurementOutcomes
+    qibo.set_backend("numpy")
+    be = qibo.backends.construct_backend("numpy")
+    np.random.seed(1234)
+    kind = spec["kind"]
+    if kind in ("state", "circuit_result", "outcomes_exec"):
+        c, _ = make_circuit(spec["circuit"])
+        r = c(nshots=spec.get("nshots", 10))
+    else:
+        ms = [make_gate(g) for g in spec["gates"]]
+        nq = sum(len(m.target_qubits) for m in ms)
+        if kind == "outcomes_samples":
+            rs = np.random.RandomState(spec["seed"])
+            r = MeasurementOutcomes(ms, backend=be, samples=rs.randint(0, 2, size=(spec["nshots"], nq)), nshots=spec["nshots"])
+        else:
+            p = np.arange(1, 2 ** nq + 1, dtype=float)
+            r = MeasurementOutcomes(ms, backend=be, probabilities=p / p.sum(), nshots=spec["nshots"])
+    after = spec.get("after", "none")
+    if after in ("frequencies", "both"):
+        r.frequencies()
+    if after in ("samples", "both"):
+        r.samples()
+    return r
+
+
+def arr_view(a):
+    if a is None:
+        return None
+    a = np.asarray(a)
+    return (str(a.dtype), a.shape, hashlib.sha1(np.ascontiguousarray(a).tobytes()).hexdigest())
+
+
+def result_view(r):
+    """everything the property lists, read without triggering any new sampling"""
+    from qibo.result import QuantumState, MeasurementOutcomes
+    v = {"type": type(r).__name__}
+    if isinstance(r, QuantumState):
+        v["state"] = arr_view(r.state())
+    if isinstance(r, MeasurementOutcomes):
+        v["registers"] = [(m.register_name, tuple(m.target_qubits)) for m in r.measurements]
+        v["noise"] = [bitflip_view(m) for m in r.measurements]
+        v["nshots"] = r.nshots
+        v["stored_samples"] = arr_view(r._samples)
+        v["stored_frequencies"] = None if r._frequencies is None else tuple(sorted((int(k), int(f)) for k, f in r._frequencies.items()))
+        v["stored_probabilities"] = arr_view(r._probs)
+        v["repeated"] = None if r._repeated_execution_frequencies is None else tuple(sorted(r._repeated_execution_frequencies.items()))
+    return v
+
+
+def result_compare(r, r2):
+    """r: original (as it was when exported), r2: re-imported"""
+    from qibo.result import QuantumState, MeasurementOutcomes
+    a, b = result_view(r), result_view(r2)
+    why = []
+    for k in ("type", "state", "registers", "noise", "nshots"):
+        if a.get(k) != b.get(k):
+            why.append(f"{k}: {a.get(k)} != {b.get(k)}")
+    if isinstance(r, MeasurementOutcomes) and not why:
+        if a["stored_samples"] is not None:
+            if arr_view(np.asarray(r2.samples()))[1:] != a["stored_samples"][1:] and not np.array_equal(np.asarray(r._samples), np.asarray(r2.samples())):
+                why.append("samples differ")
+            elif not np.array_equal(np.asarray(r._samples), np.asarray(r2.samples())):
+                why.append("samples differ")
+            if dict(r.frequencies()) != dict(r2.frequencies()):
+                why.append("frequencies differ")
+            s1, s2 = r.samples(registers=True), r2.samples(registers=True)
+            if list(s1) != list(s2) or any(not np.array_equal(np.asarray(s1[k]), np.asarray(s2[k])) for k in s1):
+                why.append("per-register samples differ")
+        elif a["stored_frequencies"] is not None:
+            f2 = tuple(sorted((int(k), int(f)) for k, f in r2.frequencies(binary=False).items()))
+            if f2 != a["stored_frequencies"]:
+                why.append(f"frequencies that the original had computed {a['stored_frequencies']} are re-sampled {f2}")
+        elif a["stored_probabilities"] is not None:
+            if isinstance(r, QuantumState):
+                pass    # a CircuitResult recomputes them from the state, which was compared above
+            elif b["stored_probabilities"] != a["stored_probabilities"]:
+                why.append("probabilities differ")
+    return why
+
+
+def result_outcome(spec, via, tmpdir):
+    from qibo import result as R
+    try:
+        r = make_result(spec)
+    except Exception as e:
+        return "unbuildable", f"{type(e).__name__}: {e}", None
+    fn = os.path.join(tmpdir, "r.npy")
+    try:
+        if via == "dict":
+            payload = r.to_dict()
+        else:
+            r.dump(fn)
+    except Exception as e:
+        return "export_raises", type(e).__name__, (r, None)
+    va = result_view(r)
+    try:
+        with warnings.catch_warnings():
+            warnings.simplefilter("ignore")
+            if via == "dict":
+                payload = dict(payload)
+                payload.pop("dtype", None)
+                r2 = type(r).from_dict(payload)
+            elif via == "load":
+                r2 = type(r).load(fn)
+            else:
+                r2 = R.load_result(fn)
+    except Exception as e:
+        return "import_rejects", f"{type(e).__name__}: {str(e)[:140]}", (r, e)
+    vb = result_view(r2)
+    why = result_compare(r, r2)
+    if why:
+        return "differs", "; ".join(why)[:400], (r, r2, va, vb)
+    return "ok", "", (r, r2, va, vb)
+
+
+def result_key(spec, cat, detail):
+    gates = spec.get("gates") or spec["circuit"]["adds"]
+    tags = []
+    for g in gates:
+        if g["cls"] == "M":
+            for k in ("p0", "p1"):
+                if isinstance(g.get("kw", {}).get(k), dict):
+                    tags.append(k + "dict")
+    if cat == "differs" and "re-sampled" in detail:
+        tags.append("frequencies_only")
+    if cat == "differs" and "registers:" in detail and "(None," in detail:
+        tags.append("default_register_names")
+    return f"result:{cat}:{spec['kind']}" + ("." + ".".join(sorted(set(tags))) if tags else "")
+
+
+def suite_results(run, rng, T):
+    batch = CoqBatch(run, "results")
+    stats = {}
+    tmp = tempfile.mkdtemp(prefix="c13_")
+    try:
+        for i, spec in enumerate(result_specs(run.tier, rng)):
+            for via in ("load_result", "load", "dict"):
+                cat, detail, objs = result_outcome(spec, via, tmp)
+                stats[f"{via}:{cat}"] = stats.get(f"{via}:{cat}", 0) + 1
+                if cat == "unbuildable":
+                    run.notes.setdefault("result_unbuildable", []).append(detail[:150])
+                    continue
+                run.case(["result", via, spec])
+                if via == "load_result" and i % 9 == 0:
+                    run.sample({"suite": "result", "via": via, "spec": spec, "outcome": cat, "view": json.loads(json.dumps(objs[2] if len(objs) > 2 else None, default=str))})
+                if cat in ("import_rejects", "differs"):
+                    run.find(result_key(spec, cat, detail), f"result {'dump()' if via != 'dict' else 'to_dict()'} is "
+                             + ("rejected by" if cat == "import_rejects" else "read differently by") + f" {via}: {detail}",
+                             {"suite": "result", "via": via, "spec": spec, "category": cat, "detail": detail})
+                if via == "dict" and cat in ("ok", "differs") and spec["kind"] != "state":
+                    r, r2, a, b = objs
+                    o = lambda x: "None" if x is None else '(Some "x")'
+                    batch.begin()
+                    orig = f'(mkMO string string string [] {o(a["stored_probabilities"])} {o(a["stored_samples"])} {a["nshots"]} {o(a["stored_frequencies"])})'
+                    if a["type"] == "MeasurementOutcomes":
+                        model = f"(mo_from_dict _ _ _ (mo_to_dict _ _ _ {orig}))"
+                        term = (f"let m := {model} in option_eqb String.eqb (mo_probs _ _ _ m) {o(b['stored_probabilities'])} && "
+                                f"option_eqb String.eqb (mo_samples _ _ _ m) {o(b['stored_samples'])} && (mo_nshots _ _ _ m =? {b['nshots']}) && "
+                                f"option_eqb String.eqb (mo_freq _ _ _ m) {o(b['stored_frequencies'])}")
+                    else:
+                        model = f'(cr_from_dict string string string string (fun _ _ => "x") ("s", mo_to_dict _ _ _ {orig}))'
+                        term = (f"match {model} with Some c => let m := cr_mo _ _ _ _ c in option_eqb String.eqb (mo_probs _ _ _ m) {o(b['stored_probabilities'])} && "
+                                f"option_eqb String.eqb (mo_samples _ _ _ m) {o(b['stored_samples'])} && (mo_nshots _ _ _ m =? {b['nshots']}) && "
+                                f"option_eqb String.eqb (mo_freq _ _ _ m) {o(b['stored_frequencies'])} | None => false end")
+                    batch.check(f"r{i}", term, spec)
+    finally:
+        shutil.rmtree(tmp, ignore_errors=True)
+    T["result_stats"] = stats
+    return batch, batch.flush()
